@@ -18,6 +18,7 @@ WORK = os.path.join(ROOT, "work")
 EVID = os.path.join(ROOT, "evidence")
 REPLAY = os.path.join(EVID, "replay")
 REPO = os.environ.get("VERIF_REPO", "/repo")
+os.environ.setdefault("VERIF_REPO", REPO)
 PY = "/venv/bin/python"
 NPROC = min(16, os.cpu_count() or 4)
 
@@ -98,10 +99,30 @@ class Lock:
         self.f.close()
 
 
-def gate_scan():
+def dep_closure(files):
+    """Transitive closure of `From Verif Require ... A.B` / `Require Import Verif.A.B` over coq/ (relative .v paths)."""
+    seen, todo = set(), list(files)
+    while todo:
+        f = todo.pop()
+        if f in seen:
+            continue
+        seen.add(f)
+        path = os.path.join(COQ, f)
+        if not os.path.exists(path):
+            continue
+        with open(path, encoding="utf-8") as fh:
+            text = fh.read()
+        for m in re.finditer(r"\b(Base|Gen|Spec|Model|Proofs|Props|Run)\.(\w+)", text):
+            todo.append(f"{m.group(1)}/{m.group(2)}.v")
+    return seen
+
+
+def gate_scan(only=None):
     hits = []
     for f in _vfiles():
         if f.startswith("Gen/"):
+            continue
+        if only is not None and f not in only:
             continue
         with open(os.path.join(COQ, f), encoding="utf-8") as fh:
             text = fh.read()
@@ -132,7 +153,12 @@ def build(prop_files, run_files, timeout=1500):
     br = BuildResult()
     with Lock():
         done, aborts = translate.run(verbose=False)
-        br.translate_aborts = aborts
+        closure = dep_closure(list(prop_files) + list(run_files))
+        def _relevant(tag):
+            m = re.search(r"\[(.*)\]$", tag)
+            outs = m.group(1).split(",") if m else ["?"]
+            return "?" in outs or any(("Gen/" + o) in closure for o in outs)
+        br.translate_aborts = [(g, msg) for g, msg in aborts if _relevant(g)]
         br.gen_changed = [f for f, st in done if st == "written"]
         _ensure_makefile()
         # 1. Run files (models + specs, no proofs) -- needed for case evaluation even if proofs break
@@ -145,8 +171,9 @@ def build(prop_files, run_files, timeout=1500):
         deps = set()
         for pf in prop_files:
             with open(os.path.join(COQ, pf)) as fh:
-                for m in re.finditer(r"\b(Proofs|Model|Spec|Base|Gen|Run)\.(\w+)", fh.read()):
-                    deps.add(f"{m.group(1)}/{m.group(2)}.vo")
+                for m in re.finditer(r"\b(Proofs|Model|Spec|Base|Gen|Run|Props)\.(\w+)", fh.read()):
+                    if f"{m.group(1)}/{m.group(2)}.v" not in prop_files:
+                        deps.add(f"{m.group(1)}/{m.group(2)}.vo")
         p = subprocess.run(["make", "-f", "Makefile.coq", f"-j{NPROC}", "-k"] + sorted(deps), cwd=COQ,
                            stdout=subprocess.PIPE, stderr=subprocess.STDOUT, text=True, timeout=timeout)
         br.make_log += p.stdout
@@ -171,7 +198,7 @@ def build(prop_files, run_files, timeout=1500):
             printed = re.findall(r"Print Assumptions\s+(\w+)", text)
             for name, out in zip(printed, outs):
                 br.assumptions[name] = out
-        br.gate_hits = gate_scan()
+        br.gate_hits = gate_scan(only=closure)
     br.wall = time.time() - t0
     return br
 
